@@ -114,6 +114,7 @@ var writerSpecs = []writerSpec{
 		"lisp.findAndUnquote":         "points errors from unquote at the unquoted form, restored before return",
 		"lisp.opSetUpdate":            "points the error of a failed set! at the symbol",
 		"lisp.opHandlerBind":          "locates the handler call (made with FunCall, not by evaluating a form) at the binding's handler expression",
+		"lisp.(*LEnv).funCall":        "locates an eliminated tail call at its own call expression when the frame re-enters the call loop (LOC.tail-reentry-located); deferred restore of the caller's location",
 	}},
 	{field: "lisp.LEnv.parent", floor: 0, permitted: map[string]string{}},
 	{field: "lisp.Runtime.Stack", floor: 0, permitted: map[string]string{}, doc: "direct stores only"},
